@@ -6,6 +6,52 @@ from build import AnalysisBroken
 from ir import Inst, Arg, Const, strip_casts
 
 
+def _shift_up(f, hdr, body, phis, tests):
+    """normalisation loop `while ((v & BIT) == 0) v <<= 1`: terminates within log2(BIT) iterations when v enters the loop
+    non-zero and without bits above BIT (v = x & M with M < 2*BIT, and a dominating test v != 0).
+    Returns (ok, detail) - ok None when the entry conditions cannot be established - or None when the loop is not of this shape."""
+    for phi in phis:
+        inside = [(v, pb) for v, pb in phi.incoming if pb.id in body]
+        outside = [(v, pb) for v, pb in phi.incoming if pb.id not in body]
+        if not inside or len(outside) != 1:
+            continue
+        if not all(isinstance(v, Inst) and v.op == "shl" and v.operands[0] is phi and isinstance(v.operands[1], Const) and v.operands[1].v >= 1
+                   for v, _ in inside):
+            continue
+        bit = None
+        for tb in tests:
+            c = tb.term.operands[0]
+            if isinstance(c, Inst) and c.op == "icmp" and c.pred in ("eq", "ne") and isinstance(c.operands[1], Const) and c.operands[1].v == 0:
+                a = c.operands[0]
+                if isinstance(a, Inst) and a.op == "and" and isinstance(a.operands[1], Const) and a.operands[0] is phi:
+                    m = a.operands[1].v
+                    # the loop continues while the bit is clear
+                    cont = tb.succs[0] if c.pred == "eq" else tb.succs[1]
+                    if m and m & (m - 1) == 0 and cont.id in body:
+                        bit = m
+        if bit is None:
+            continue
+        v0, pre = outside[0]
+        base = strip_casts(v0, ("zext", "sext", "trunc"))
+        bounded = isinstance(base, Inst) and base.op == "and" and isinstance(base.operands[1], Const) and base.operands[1].v < 2 * bit
+        nonzero = False
+        for p in f.blocks:
+            t = p.insts[-1] if p.insts else None
+            if t is None or t.op != "br" or len(p.succs) != 2:
+                continue
+            c = t.operands[0]
+            if isinstance(c, Inst) and c.op == "icmp" and c.pred in ("eq", "ne") and isinstance(c.operands[1], Const) and c.operands[1].v == 0 \
+                    and strip_casts(c.operands[0], ("zext", "sext", "trunc")) is base:
+                edge = p.succs[1] if c.pred == "eq" else p.succs[0]
+                if f.edge_dominates(p, edge, hdr):
+                    nonzero = True
+        if bounded and nonzero:
+            return True, "the value enters non-zero and below 2*0x%x: its leading one reaches bit 0x%x within %d shifts" % (bit, bit, bit.bit_length())
+        return None, "shift-up loop on %s: cannot establish that it enters non-zero (%s) and without bits above the tested one (%s)" % (
+            phi.name or "phi", nonzero, bounded)
+    return None
+
+
 def classify_loops(prog, f):
     """returns list of dict(header, kind, ok, detail, where)"""
     out = []
@@ -79,6 +125,10 @@ def classify_loops(prog, f):
                 rec = (phi, kinds, adv_ok, shape_known)
                 break
         calls = {i.callee for bid in body for i in f.bmap[bid].insts if i.op == "call" and i.callee}
+        su = _shift_up(f, hdr, body, phis, tests)
+        if su is not None and rec is None:
+            out.append(dict(header=hdr, kind="normalise(shift-up)", ok=su[0], where=where, detail=su[1]))
+            continue
         if f.name == "cbor_load" and "cbor_stream_decode" in calls:
             # the decode loop (whatever its spelling: do/while, for(;;) + break, a running total kept in a local)
             out.append(dict(header=hdr, kind="named:decode-loop", ok=True, where=where,
